@@ -13,6 +13,7 @@ import (
 	"os/exec"
 	"path/filepath"
 	"regexp"
+	"runtime"
 	"sort"
 	"strconv"
 	"strings"
@@ -37,6 +38,9 @@ type Scenario struct {
 	Mode     string          `json:"mode,omitempty"`
 	Extra    json.RawMessage `json:"extra,omitempty"`
 	Tier     string          `json:"tier,omitempty"`
+	// Procs is GOMAXPROCS of the run (klauspost/zstd picks synchronous or
+	// goroutine-based decoding from it); replay restores it.
+	Procs int `json:"gomaxprocs,omitempty"`
 }
 
 // Violation is a property violation found by a check.
@@ -110,20 +114,26 @@ type quietTB struct {
 	logs   []string
 }
 
-func (q *quietTB) Helper()                           {}
-func (q *quietTB) Name() string                      { return "mcapsim" }
-func (q *quietTB) Logf(f string, a ...any)           { q.logs = append(q.logs, fmt.Sprintf(f, a...)) }
-func (q *quietTB) Log(a ...any)                      { q.logs = append(q.logs, fmt.Sprint(a...)) }
-func (q *quietTB) Skipf(f string, a ...any)          {}
-func (q *quietTB) Skip(a ...any)                     {}
-func (q *quietTB) SkipNow()                          {}
-func (q *quietTB) Errorf(f string, a ...any)         { q.failed = true; q.logs = append(q.logs, fmt.Sprintf(f, a...)) }
-func (q *quietTB) Error(a ...any)                    { q.failed = true; q.logs = append(q.logs, fmt.Sprint(a...)) }
-func (q *quietTB) Fatalf(f string, a ...any)         { q.failed = true; q.logs = append(q.logs, fmt.Sprintf(f, a...)) }
-func (q *quietTB) Fatal(a ...any)                    { q.failed = true; q.logs = append(q.logs, fmt.Sprint(a...)) }
-func (q *quietTB) FailNow()                          { q.failed = true }
-func (q *quietTB) Fail()                             { q.failed = true }
-func (q *quietTB) Failed() bool                      { return q.failed }
+func (q *quietTB) Helper()                  {}
+func (q *quietTB) Name() string             { return "mcapsim" }
+func (q *quietTB) Logf(f string, a ...any)  { q.logs = append(q.logs, fmt.Sprintf(f, a...)) }
+func (q *quietTB) Log(a ...any)             { q.logs = append(q.logs, fmt.Sprint(a...)) }
+func (q *quietTB) Skipf(f string, a ...any) {}
+func (q *quietTB) Skip(a ...any)            {}
+func (q *quietTB) SkipNow()                 {}
+func (q *quietTB) Errorf(f string, a ...any) {
+	q.failed = true
+	q.logs = append(q.logs, fmt.Sprintf(f, a...))
+}
+func (q *quietTB) Error(a ...any) { q.failed = true; q.logs = append(q.logs, fmt.Sprint(a...)) }
+func (q *quietTB) Fatalf(f string, a ...any) {
+	q.failed = true
+	q.logs = append(q.logs, fmt.Sprintf(f, a...))
+}
+func (q *quietTB) Fatal(a ...any) { q.failed = true; q.logs = append(q.logs, fmt.Sprint(a...)) }
+func (q *quietTB) FailNow()       { q.failed = true }
+func (q *quietTB) Fail()          { q.failed = true }
+func (q *quietTB) Failed() bool   { return q.failed }
 
 var rapidInit sync.Once
 
@@ -164,6 +174,7 @@ func RunBatch(p Prop, tier string, verifSeed uint64, batch int, known *KnownFind
 	pin := ""
 	tb := &quietTB{}
 	harness := ""
+	wd := newWatchdog(watchdogLimit(tier))
 	func() {
 		defer func() {
 			if r := recover(); r != nil {
@@ -174,7 +185,11 @@ func RunBatch(p Prop, tier string, verifSeed uint64, batch int, known *KnownFind
 			sc := p.Draw(t, tier)
 			sc.Prop = p.ID()
 			sc.Tier = tier
+			sc.Procs = runtime.GOMAXPROCS(0)
 			st.Scenarios++
+			st.Doing(nil, "")
+			wd.arm(sc, st, p.ID(), batch, seed)
+			defer wd.disarm()
 			if pin == "" {
 				st.Sample(sc, 3)
 			}
@@ -249,6 +264,9 @@ func Replay(path string) (*ReplayFile, *Violation, error) {
 	p, ok := Lookup(rf.Property)
 	if !ok {
 		return &rf, nil, fmt.Errorf("unknown property %s", rf.Property)
+	}
+	if rf.Scenario.Procs > 0 {
+		runtime.GOMAXPROCS(rf.Scenario.Procs)
 	}
 	st := NewStats()
 	v := p.Check(rf.Scenario, st, rf.Clause)
@@ -488,4 +506,100 @@ func runBatchChild(cfg RunConfig, job batchJob) *BatchResult {
 		r.Stats.Counters = map[string]int64{}
 	}
 	return &r
+}
+
+// ---- watchdog ------------------------------------------------------------------
+
+// A scenario that does not finish within the limit is reported as a
+// no_termination violation of the property (the library looped or blocked
+// under the injected fault); the batch child prints its result and exits.
+type watchdog struct {
+	mu    sync.Mutex
+	limit time.Duration
+	timer *time.Timer
+}
+
+func watchdogLimit(tier string) time.Duration {
+	if d, err := time.ParseDuration(os.Getenv("VERIF_WATCHDOG")); err == nil && d > 0 {
+		return d
+	}
+	if tier == "quick" {
+		return 90 * time.Second
+	}
+	return 10 * time.Minute
+}
+
+func newWatchdog(limit time.Duration) *watchdog { return &watchdog{limit: limit} }
+
+func (w *watchdog) arm(sc *Scenario, st *Stats, prop string, batch int, seed uint64) {
+	w.mu.Lock()
+	defer w.mu.Unlock()
+	if w.timer != nil {
+		w.timer.Stop()
+	}
+	st.progress.Store(time.Now().UnixNano())
+	var fire func()
+	fire = func() {
+		// the limit applies to one evaluation: Doing() marks progress
+		idle := time.Duration(time.Now().UnixNano() - st.progress.Load())
+		if idle < w.limit {
+			w.mu.Lock()
+			if w.timer != nil {
+				w.timer = time.AfterFunc(w.limit-idle+time.Second, fire)
+			}
+			w.mu.Unlock()
+			return
+		}
+		cp := *sc
+		if st.curFault != nil {
+			f := *st.curFault
+			cp.Fault = &f
+		}
+		if st.curMode != "" {
+			cp.Mode = st.curMode
+		}
+		v := &Violation{Property: prop, Clause: "no_termination", Detail: fmt.Sprintf("one evaluation still running after %v (library call does not return)", idle.Round(time.Second)), Scenario: &cp}
+		res := &BatchResult{Prop: prop, Batch: batch, RapidSeed: seed, Stats: NewStats(), Violation: v}
+		b, _ := json.Marshal(res)
+		fmt.Printf("BATCH-RESULT %s\n", b)
+		os.Exit(0)
+	}
+	w.timer = time.AfterFunc(w.limit, fire)
+}
+
+func (w *watchdog) disarm() {
+	w.mu.Lock()
+	defer w.mu.Unlock()
+	if w.timer != nil {
+		w.timer.Stop()
+		w.timer = nil
+	}
+}
+
+// ReplayWithWatchdog is Replay with the same no_termination rule.
+func ReplayWithWatchdog(path string) (*ReplayFile, *Violation, error) {
+	type out struct {
+		rf  *ReplayFile
+		v   *Violation
+		err error
+	}
+	ch := make(chan out, 1)
+	go func() {
+		rf, v, err := Replay(path)
+		ch <- out{rf, v, err}
+	}()
+	select {
+	case o := <-ch:
+		return o.rf, o.v, o.err
+	case <-time.After(watchdogLimit("thorough")):
+		b, err := os.ReadFile(path)
+		if err != nil {
+			return nil, nil, err
+		}
+		var rf ReplayFile
+		if err := json.Unmarshal(b, &rf); err != nil {
+			return nil, nil, err
+		}
+		return &rf, &Violation{Property: rf.Property, Clause: "no_termination", Detail: fmt.Sprintf("scenario still running after %v (library call does not return)", watchdogLimit("thorough")), Scenario: rf.Scenario}, nil
+	}
 }
